@@ -6,8 +6,8 @@
     composition with path construction, flag plumbing, per-table sequencing and overwrite.
 
     PARTIAL in this sense — modelled, not verified: urfave/cli (flag parsing), the file system
-    (a finite map path -> GeoPackage content; os.Remove / gpkg.Open), package path and fmt.Sprintf
-    (re-implemented in Cli/Model.v and held to Go's by the PathCase correspondence), SQLite and the
+    (a finite map path -> GeoPackage content; os.Remove / gpkg.Open), package path, strings.ReplaceAll and
+    fmt.Sprintf (re-implemented in Cli/Model.v and held to Go's by the PathCase / FmtCase correspondence), SQLite and the
     GeoPackage library (Gpkg/Model.v).  The weight of C13 is on the end-to-end correspondence
     (Corr/C13.v): the REAL binary on random source GeoPackages against this composition with the
     library's observed results as the oracle function. *)
@@ -16,9 +16,35 @@ From Texel Require Import Gpkg.Model Gpkg.Proofs Cli.Model Cli.Proofs Cli.Proofs
 Import ListNotations.
 Open Scope Z_scope.
 
-(** on the safe alphabet (no '%'; directory elements non-empty, not "." / ".."; name and extension
-    without '/', the extension being the part from the last dot) the target of tile matrix [id] is
-    dir/name_<id>ext — for every directory depth, rooted or relative, with or without extension *)
+(** for EVERY target path -- any characters: '%', "%v", "%%", "%20", a '%' at the end, unclean "a//b/../c" -- the
+    target of tile matrix [id] is the given path with "_<id>" inserted before the extension of its last element
+    ([target_path], Cli/Model.v: Split, Ext, the slice and Join with Clean on the path AS GIVEN, no format involved).
+    injectSuffixIntoPath doubles the percent signs and builds a FORMAT from the escaped path; the theorem says that
+    doubling commutes with Split / Ext / the slice / Clean (no slash and no dot is touched), and that fmt.Sprintf is
+    always inside its model on that format and undoes the doubling.  (F21: before the repair this needed "no '%' in
+    the path", and the real tool failed on such paths.) *)
+Theorem C13_target_path_total : forall p id, inject p id = Some (target_path p id).
+Proof. exact inject_spec. Qed.
+Print Assumptions C13_target_path_total.
+
+(** the format itself, for every path: the cleaned directory and the name with the percent signs doubled, "_%v", the
+    extension with the percent signs doubled *)
+Theorem C13_target_format_shape : forall p,
+  inject_format p =
+  escape_percent (clean_dir (fst (path_split p)) ++ strip_ext (snd (path_split p)) ++ s_ "_") ++ s_ "%v" ++
+  escape_percent (path_ext (snd (path_split p))).
+Proof. exact inject_format_shape. Qed.
+Print Assumptions C13_target_format_shape.
+
+(** so no run of the model ends because of the characters of the target path *)
+Theorem C13_never_unsafe_path : forall sfeat snapfun snap pipeline (a : args sfeat) fs0,
+  cli_run sfeat snapfun snap pipeline a fs0 <> CErr UnsafePath.
+Proof. exact cli_run_never_unsafe_path. Qed.
+Print Assumptions C13_never_unsafe_path.
+
+(** for a path made of proper elements (directory elements non-empty, not "." / ".."; name and extension
+    without '/', the extension being the part from the last dot; ANY other character, '%' included) the target of
+    tile matrix [id] is dir/name_<id>ext -- for every directory depth, rooted or relative, with or without extension *)
 Theorem C13_target_path_spec : forall rooted comps n e id,
   Forall comp_ok comps -> name_ok n e -> ext_ok e ->
   inject (render_dir rooted comps ++ n ++ e) id = Some (render_dir rooted comps ++ n ++ s_ "_" ++ dec id ++ e).
@@ -111,21 +137,48 @@ Print Assumptions C13_overwrite_forgets.
 
 Example C13_example_paths :
   Forall comp_ok [s_ "out"; s_ "v1.2"] /\ name_ok (s_ "nl.tiles") (s_ ".gpkg") /\ ext_ok (s_ ".gpkg") /\
+  Forall comp_ok [s_ "out%20dir"] /\ name_ok (s_ "x%v") (s_ ".gp%kg") /\ ext_ok (s_ ".gp%kg") /\
   inject (s_ "/out/v1.2/nl.tiles.gpkg") 14 = Some (s_ "/out/v1.2/nl.tiles_14.gpkg") /\
   inject (s_ "target") 5 = Some (s_ "target_5") /\
   inject (s_ "a//b/../x.tar.gz") 0 = Some (s_ "a/x.tar_0.gz") /\
-  inject (s_ "100%.gpkg") 5 = None.
+  inject (s_ "100%.gpkg") 5 = Some (s_ "100%_5.gpkg") /\
+  inject (s_ "out%20dir/x%v.gp%kg") 7 = Some (s_ "out%20dir/x%v_7.gp%kg") /\
+  inject (s_ "%") (-3) = Some (s_ "%_-3") /\
+  inject (s_ "a%%/./%.%") 12 = Some (s_ "a%%/%_12.%").
 Proof.
-  assert (S : forall s, Forall (fun c => Ascii.eqb c slash = false /\ Ascii.eqb c percent = false) s -> Forall safe_char s).
-  { intros s H. eapply Forall_impl; [|exact H]. intros c [H1 H2]. split; now apply Ascii.eqb_neq. }
-  assert (P : forall s, Forall (fun c => Ascii.eqb c slash = false /\ Ascii.eqb c percent = false /\ Ascii.eqb c dot = false) s -> Forall plain_char s).
-  { intros s H. eapply Forall_impl; [|exact H]. intros c [H1 [H2 H3]]. repeat split; now apply Ascii.eqb_neq. }
-  split; [|split; [|split]].
+  assert (S : forall s, Forall (fun c => Ascii.eqb c slash = false) s -> Forall safe_char s).
+  { intros s H. eapply Forall_impl; [|exact H]. intros c H1. now apply Ascii.eqb_neq. }
+  assert (P : forall s, Forall (fun c => Ascii.eqb c slash = false /\ Ascii.eqb c dot = false) s -> Forall plain_char s).
+  { intros s H. eapply Forall_impl; [|exact H]. intros c [H1 H3]. split; now apply Ascii.eqb_neq. }
+  split; [|split; [|split; [|split; [|split; [|split]]]]].
   - repeat constructor; try discriminate; apply S; repeat constructor.
   - split; [apply S; repeat constructor|discriminate].
   - right. exists (s_ "gpkg"). split; [reflexivity|]. apply P. repeat constructor.
+  - repeat constructor; try discriminate; apply S; repeat constructor.
+  - split; [apply S; repeat constructor|discriminate].
+  - right. exists (s_ "gp%kg"). split; [reflexivity|]. apply P. repeat constructor.
   - vm_compute. repeat split.
 Qed.
+
+(** F21: `texel -t 'out%20dir/x%v.gpkg' -z '[5]'`.  The repaired tool writes out%20dir/x%v_5.gpkg ... *)
+Example C13_regression_F21 :
+  inject (s_ "out%20dir/x%v.gpkg") 5 = Some (s_ "out%20dir/x%v_5.gpkg") /\
+  inject_format (s_ "out%20dir/x%v.gpkg") = s_ "out%%20dir/x%%v_%v.gpkg" /\
+  target_path (s_ "out%20dir/x%v.gpkg") 5 = s_ "out%20dir/x%v_5.gpkg".
+Proof. vm_compute. repeat split. Qed.
+
+(** ... and the PRE-REPAIR reading (injectSuffixIntoPath without its first statement: [inject_format_raw]) handed
+    fmt.Sprintf the format out%20dir/x%v_%v.gpkg: outside the model ("%20d" is a verb with a width: the real tool asked
+    for a file in a directory "out<19 blanks>5ir" and could not open it); likewise a '%' before the extension, a '%' at the
+    end, a "%v" of the path's own (two verbs for one argument).  Paths without '%' were never affected. *)
+Example C13_F21_pre_repair_outside_model :
+  inject_format_raw (s_ "out%20dir/x%v.gpkg") = s_ "out%20dir/x%v_%v.gpkg" /\
+  sprintf_v (inject_format_raw (s_ "out%20dir/x%v.gpkg")) 5 = None /\
+  sprintf_v (inject_format_raw (s_ "100%.gpkg")) 5 = None /\
+  sprintf_v (inject_format_raw (s_ "x.gpkg%")) 5 = None /\
+  sprintf_v (inject_format_raw (s_ "x%v.gpkg")) 5 = None /\
+  sprintf_v (inject_format_raw (s_ "out/nl.gpkg")) 5 = Some (s_ "out/nl_5.gpkg").
+Proof. vm_compute. repeat split. Qed.
 
 (** a two-table source, two tile matrices, page size 2: the polygon table's features are kept / split /
     dropped differently per tile matrix, the point table is copied *)
@@ -208,7 +261,8 @@ Print Assumptions C13_source_tie.
     of the calls, every error exit ([return err] -> log.Fatal in main; log.Fatalf), which flag is read for which argument, the
     map of targets (one target per DISTINCT id), overwrite handling (os.Remove, ENOENT tolerated), the per-table loop, the defers.
     STAYS MODELLED (Cli/MainOps.v; each call is accepted only in the exact shape listed at the top of gen/CliMainGen.v):
-    package path (Split / Ext / Join with Clean), fmt.Sprintf with one %v, urfave/cli (the context = the value of every flag by
+    package path (Split / Ext / Join with Clean), strings.ReplaceAll with the literals of the source, fmt.Sprintf with %% and
+    one %v, urfave/cli (the context = the value of every flag by
     name; app.Run calls the Action), the file system as finite maps, gpkg.SourceGeopackage / gpkg.TargetGeopackage (objects on
     a heap, their content in the file system, CreateTables / the writer = Gpkg/Model.v), Go maps (keys in the order of their
     last assignment), and — as fields of an abstract [lib], so for EVERY implementation of them — tms20.LoadEmbeddedTileMatrixSet,
@@ -222,7 +276,14 @@ Theorem C13_source_tie_inject_suffix : forall p, gen_injectSuffixIntoPath p = MO
 Proof. exact gen_injectSuffixIntoPath_spec. Qed.
 Print Assumptions C13_source_tie_inject_suffix.
 
-(** so C13_target_path_spec speaks about the source text: injectSuffixIntoPath, then fmt.Sprintf as in initGPKGTarget *)
+(** so C13_target_path_total speaks about the source text: injectSuffixIntoPath, then fmt.Sprintf as in initGPKGTarget,
+    for EVERY given path (the format is never outside the model of fmt.Sprintf) ... *)
+Theorem C13_target_path_total_source : forall p id,
+  (mdo f <- gen_injectSuffixIntoPath p; op_Sprintf f id) = MOk (target_path p id).
+Proof. exact target_path_total_gen. Qed.
+Print Assumptions C13_target_path_total_source.
+
+(** ... and so does C13_target_path_spec (no condition on '%' any more) *)
 Theorem C13_target_path_spec_source : forall rooted comps n e id,
   Forall comp_ok comps -> name_ok n e -> ext_ok e ->
   (mdo f <- gen_injectSuffixIntoPath (render_dir rooted comps ++ n ++ e); op_Sprintf f id) =
@@ -266,6 +327,14 @@ Theorem C13_source_tie_main : forall (L : lib) (c : cctx) (fs0 : fsys) (srcs : s
   end.
 Proof. exact source_tie_main. Qed.
 Print Assumptions C13_source_tie_main.
+
+(** main of main.go never ends because fmt.Sprintf was handed a format outside the model (F21: it did for every target
+    path with a '%') *)
+Theorem C13_source_never_unsafe_format : forall (L : lib) (c : cctx) (fs0 : fsys) (srcs : srcfs L),
+  (forall src, src_lookup L (cx_String c "sourceGpkg") srcs = Some src -> NoDup (map t_name (map fst src))) ->
+  gen_main L (MkWorld fs0 srcs []) c <> MErr UnsafeFormat.
+Proof. exact gen_main_never_unsafe_format. Qed.
+Print Assumptions C13_source_never_unsafe_format.
 
 (** every flag the Action reads is declared in app.Flags with the kind of its accessor; the flags read are exactly those of
     the statement above; -pagesize defaults to 1000 *)
@@ -323,10 +392,14 @@ Example C13_example_source_tie_main :
   end /\
   (* abnormal ends *)
   gen_main (ex_lib ex_cfg) (ex_world []) (ex_ctx "missing.gpkg" "out/nl.gpkg" "[5,6]" false) = MErr (Fatal ENOENT) /\
-  gen_main (ex_lib ex_cfg) (ex_world []) (ex_ctx "in.gpkg" "out/100%.gpkg" "[5,6]" false) = MErr UnsafeFormat /\
+  (* F21: a '%' in the target path is an ordinary character *)
+  gen_rows_at (gen_main (ex_lib ex_cfg) (ex_world []) (ex_ctx "in.gpkg" "out%20dir/100%.gpkg" "[5,6]" false)) "out%20dir/100%_6.gpkg" "poi"
+    = Some [[CVal (VInt 7); CGeom (MkGeom 1 [(1, 1)] 9)]] /\
   gen_main (ex_lib ex_cfg) (ex_world []) (ex_ctx "in.gpkg" "out/nl.gpkg" "[5,6" false) = MErr (Fatal (LibErr "invalid character")) /\
   gen_main (ex_lib ex_cfg) (ex_world []) (ex_ctx "in.gpkg" "out/nl.gpkg" "[]" false) = MErr (Fatal (LibErr "invalid character")) /\
   gen_main (ex_lib (MkSnapCfg false true false)) (@MkWorld (ex_lib (MkSnapCfg false true false)) [] [(s_ "in.gpkg", ex_src)] [])
            (ex_ctx "in.gpkg" "out/nl.gpkg" "[5,6]" false) = MErr PipelinePanicked /\
-  gen_injectSuffixIntoPath (s_ "a//b/../x.tar.gz") = MOk (s_ "a/x.tar_%v.gz").
+  gen_injectSuffixIntoPath (s_ "a//b/../x.tar.gz") = MOk (s_ "a/x.tar_%v.gz") /\
+  gen_injectSuffixIntoPath (s_ "a%b//./x%v.tar.g%") = MOk (s_ "a%%b/x%%v.tar_%v.g%%") /\
+  (mdo f <- gen_injectSuffixIntoPath (s_ "out%20dir/x%v.gpkg"); op_Sprintf f 5) = MOk (s_ "out%20dir/x%v_5.gpkg").
 Proof. vm_compute. repeat split. Qed.
